@@ -120,7 +120,8 @@ class BufGen:
         self.scope: list[str] = []  # loop-carried buffers / buffers picked by a conditional that are visible here
 
     def bufs(self):
-        return [f"%a{i}" for i in range(N_ARGS)] + [f"%b{i}" for i in range(self.p.get("n_allocs", N_ALLOCS))]
+        retired = getattr(self, "retired", ())
+        return [f"%a{i}" for i in range(N_ARGS)] + [b for b in (f"%b{i}" for i in range(self.p.get("n_allocs", N_ALLOCS))) if b not in retired]
 
     def stmts(self, k, depth, ivs, inloop):
         out = []
@@ -211,6 +212,10 @@ class BufGen:
             name = f"%pk{self.n}"
             node["res"] = [name] + r.sample(self.bufs()[N_ARGS:], 2)
             self.scope.append(name)
+            if p.get("retire_picked") and len(self.bufs()) - N_ARGS >= 5:
+                # from here on the two buffers are only used under their new name: their life ends with it, and (static
+                # allocation) their addresses can be handed out again to buffers that are allocated later
+                self.retired = set(getattr(self, "retired", ())) | set(node["res"][1:])
         return node
 
     def program(self):
@@ -234,8 +239,9 @@ class BufGen:
             r = self.r
             body = ast["body"]
             allocs = [f"%b{i}" for i in range(self.p.get("n_allocs", N_ALLOCS))] + (["%s0"] if ast["views"] else [])
+            alias = aliases_of(body)
             for b in allocs:
-                idx = [i for i, st in enumerate(body) if b in buffers_of(st)]
+                idx = [i for i, st in enumerate(body) if b in buffers_of(st, alias)]
                 if idx and r.random() < self.p.get("p_dealloc", 0.0):
                     body.insert(r.randint(idx[-1] + 1, len(body)), {"k": "dealloc", "buf": b})
                 if not idx:
@@ -248,8 +254,22 @@ class BufGen:
         return ast
 
 
-def buffers_of(st):
+def aliases_of(body, acc=None):
+    """names that stand for one of several allocations (result of a picking conditional) -> those allocations"""
+    acc = {} if acc is None else acc
+    for st in body:
+        if st.get("res"):
+            acc[st["res"][0]] = set(st["res"][1:])
+        for key in ("body", "then", "else", "entry", "b1", "b2"):
+            aliases_of(st.get(key, []), acc)
+    return acc
+
+
+def buffers_of(st, alias=None):
     """allocations (not views) a statement touches, anywhere inside it."""
+    if alias:
+        plain = buffers_of(st)
+        return {x for b in plain for x in alias.get(b, {b})}
     out = set(st.get("reads", []))
     for key in ("src", "dst", "out", "buf"):
         if key in st:
